@@ -20,6 +20,7 @@ ASSUMPTIONS = [
 ]
 
 EPS = np.finfo(float).eps
+REQUIRED_CLASSES = {"closed_form": ["x>709", "lang:C", "lang:Py", "classical", "cutoff:mid"]}
 
 
 class _P:
